@@ -688,6 +688,7 @@ func ruleFiltersNeverStop(c *Ctx) {
 	items := c.Field(pk, "scanWriter", "numberItems")
 	limit := c.Field(pk, "scanWriter", "limit")
 	count := c.Field(pk, "scanWriter", "count")
+	lfh := limitFlagHelpers(c, po, items, limit)
 	okAll := true
 	var at token.Pos
 	why := ""
@@ -711,6 +712,14 @@ func ruleFiltersNeverStop(c *Ctx) {
 			if be, ok := ast.Unparen(f.E).(*ast.BinaryExpr); ok && (!f.Neg && be.Op == token.EQL || f.Neg && be.Op == token.NEQ) &&
 				(selField(info, be.X) == items && selField(info, be.Y) == limit || selField(info, be.X) == limit && selField(info, be.Y) == items) {
 				atLimit = true
+			}
+		}
+		// … or a helper of pushObject that answers true only at the limit has answered true
+		for _, f := range fg.DominatingFacts(r) {
+			if call, ok := ast.Unparen(f.E).(*ast.CallExpr); ok && !f.Neg {
+				if g := callee(info, call); g != nil && lfh[g] != nil {
+					atLimit = true
+				}
 			}
 		}
 		if atLimit && boolConst(info, e) == '0' {
